@@ -191,6 +191,122 @@ impl MetadataUpdate {
     }
 }
 
+/// Verification harness: applies sequences of the real `merge_*` constructors to one channel slot and
+/// reports what a consumer taking the slot would receive. Add-only, compiled with `--cfg scylla_verif`.
+#[cfg(scylla_verif)]
+#[allow(missing_docs, unreachable_pub, unnameable_types)]
+pub mod verif_hooks {
+    use super::*;
+    use crate::cluster::node::NodeAddr;
+    use std::net::{IpAddr, Ipv4Addr};
+
+    pub enum VOp {
+        /// a full metadata fetch with the given peers, optionally answering an explicit refresh request
+        Full { peers: Vec<u8>, refresh: bool },
+        /// a partial topology fetch (the whole peer list)
+        Topology { peers: Vec<u8> },
+        Up(u8),
+        Down(u8),
+        /// the consumer takes what is pending
+        Take,
+    }
+
+    pub struct VTaken {
+        /// "none" | "full" | "partial" | "hints" (no metadata changes, only status hints)
+        pub kind: &'static str,
+        /// peers of the full metadata / of the partial topology update; `None` when no peer list is carried
+        pub peers: Option<Vec<u8>>,
+        pub refresh_responses: usize,
+        /// (node, up?) sorted by node
+        pub hints: Vec<(u8, bool)>,
+    }
+
+    fn addr(id: u8) -> SocketAddr {
+        SocketAddr::new(IpAddr::V4(Ipv4Addr::new(127, 0, 9, id)), 9042)
+    }
+
+    fn peer(id: u8) -> Peer {
+        Peer {
+            host_id: Uuid::from_u128(id as u128),
+            address: NodeAddr::Translatable(addr(id)),
+            tokens: Vec::new(),
+            datacenter: None,
+            rack: None,
+        }
+    }
+
+    fn ids(peers: &[Peer]) -> Vec<u8> {
+        peers.iter().map(|p| p.host_id.as_u128() as u8).collect()
+    }
+
+    fn describe(slot: Option<MetadataUpdate>) -> VTaken {
+        let Some(u) = slot else {
+            return VTaken { kind: "none", peers: None, refresh_responses: 0, hints: Vec::new() };
+        };
+        let mut hints: Vec<(u8, bool)> = u
+            .status_hints
+            .iter()
+            .map(|(a, h)| {
+                let id = match a.ip() {
+                    IpAddr::V4(v4) => v4.octets()[3],
+                    IpAddr::V6(_) => 0,
+                };
+                (id, *h == StatusHint::Up)
+            })
+            .collect();
+        hints.sort();
+        match u.metadata_changes {
+            None => VTaken { kind: "hints", peers: None, refresh_responses: 0, hints },
+            Some(MetadataChanges::Full { metadata, refresh_responses }) => VTaken {
+                kind: "full",
+                peers: Some(ids(&metadata.peers)),
+                refresh_responses: refresh_responses.len(),
+                hints,
+            },
+            Some(MetadataChanges::Partial(p)) => VTaken {
+                kind: "partial",
+                peers: p.peers.as_deref().map(ids),
+                refresh_responses: 0,
+                hints,
+            },
+        }
+    }
+
+    /// Runs `ops` on one slot; returns what every `Take` received, then what is left at the end.
+    pub fn run(ops: &[VOp]) -> Vec<VTaken> {
+        let mut slot: Option<MetadataUpdate> = None;
+        let mut out = Vec::new();
+        // the receivers must stay alive so that a dropped sender is not mistaken for a lost response
+        let mut keep = Vec::new();
+        for op in ops {
+            match op {
+                VOp::Full { peers, refresh } => {
+                    let metadata = Metadata {
+                        peers: peers.iter().map(|i| peer(*i)).collect(),
+                        keyspaces: HashMap::new(),
+                        cluster_name: None,
+                        client_routes: None,
+                    };
+                    let resp = refresh.then(|| {
+                        let (tx, rx) = oneshot::channel();
+                        keep.push(rx);
+                        tx
+                    });
+                    MetadataUpdate::merge_metadata(&mut slot, metadata, resp);
+                }
+                VOp::Topology { peers } => {
+                    MetadataUpdate::merge_topology_update(&mut slot, peers.iter().map(|i| peer(*i)).collect())
+                }
+                VOp::Up(i) => MetadataUpdate::merge_up_hint(&mut slot, addr(*i)),
+                VOp::Down(i) => MetadataUpdate::merge_down_hint(&mut slot, addr(*i)),
+                VOp::Take => out.push(describe(slot.take())),
+            }
+        }
+        out.push(describe(slot.take()));
+        out
+    }
+}
+
 /// A partial, mergeable update of client routes, derived from the
 /// (connection id, host id) pairs listed by CLIENT_ROUTES_CHANGE:UPDATE_NODES
 /// events and from the partial snapshot of `system.client_routes` fetched in
